@@ -345,12 +345,72 @@ fn run_diff(args: &Args) -> Report {
     rep
 }
 
+// ------------------------------------------------------------------------------------ dump mode
+/// writes generated requests, the spec driver's answers and every host-oracle answer to --file, for
+/// tools/spec_vs_py.py (cross-check of Spec/Whatwg.v against design_notes/.../whatwg.py)
+fn run_dump(args: &Args) -> Report {
+    use std::cell::RefCell;
+    use std::io::Write;
+    let mut drv = Driver::spawn(&args.driver);
+    let mut rep = Report::new();
+    let mut rng = Rng::new(args.seed);
+    let out = RefCell::new(std::io::BufWriter::new(std::fs::File::create(&args.file).expect("--file")));
+    let pool = base_pool();
+    let values = setter_values();
+    let n = if args.tier == "thorough" { 600_000 } else { 100_000 };
+    let oracle = |name: &str, arg: &str| {
+        let a = spec_oracle(name, arg);
+        if name == "shp" {
+            writeln!(out.borrow_mut(), "H\t{}\t{}", arg, a).unwrap();
+        }
+        a
+    };
+    for i in 0..n {
+        let s = random_url_string(&mut rng);
+        let s = if i % 3 == 0 { mutate_string(&mut rng, &s) } else { s };
+        let base = match rng.below(4) {
+            0 | 1 => "~".to_string(),
+            2 => hexs(pool[rng.below(pool.len())]),
+            _ => hexs(&random_url_string(&mut rng)),
+        };
+        let req = format!("parse {} {}", base, hexs(&s));
+        let ans = drv.ask_with(&req, oracle);
+        writeln!(out.borrow_mut(), "P\t{}\t{}\t{}", base, hexs(&s), ans).unwrap();
+        rep.case("dump-parse", &req, &ans, &ans, true, if ans.starts_with("ok") { "ok" } else { &ans });
+        if i % 2 == 0 {
+            let href = if rng.chance(1, 2) { rng.pick(&pool).to_string() } else { random_url_string(&mut rng) };
+            let k = 1 + rng.below(4);
+            let ops: Vec<String> = (0..k)
+                .map(|_| {
+                    let name = *rng.pick(&KEYS);
+                    let val = if rng.chance(1, 4) {
+                        random_url_string(&mut rng)
+                    } else if rng.chance(1, 4) {
+                        let v0 = rng.pick(&values).to_string();
+                        mutate_string(&mut rng, &v0)
+                    } else {
+                        rng.pick(&values).to_string()
+                    };
+                    format!("{}={}", name, hexs(&val))
+                })
+                .collect();
+            let req = format!("setseq {} {}", hexs(&href), ops.join(","));
+            let ans = drv.ask_with(&req, oracle);
+            writeln!(out.borrow_mut(), "Q\t{}\t{}\t{}", hexs(&href), ops.join(","), ans).unwrap();
+            rep.case("dump-setseq", &req, &ans, &ans, true, if ans.starts_with("ok") { "ok" } else { &ans });
+        }
+    }
+    out.borrow_mut().flush().unwrap();
+    rep
+}
+
 fn main() {
     quiet_panics();
     let args = parse_args();
     let rep = match args.mode.as_str() {
         "corr" => run_corr(&args),
         "diff" => run_diff(&args),
+        "dump" => run_dump(&args),
         m => panic!("unknown mode {}", m),
     };
     finish(&args, &rep);
